@@ -54,7 +54,7 @@ W(lock, mode) == [lock |-> lock, mode |-> mode]
 (* thread-local record: i, lbl, want, k, v (value being stored), hitv, coll (collected keys) *)
 
 PC0 == [i |-> 1, lbl |-> "start", want |-> W("start", "y"), k |-> "", v |-> 0, hitv |-> None, coll |-> {},
-        done |-> FALSE]
+        aux |-> 0, done |-> FALSE]
 
 Sync == cfg.flavour = "sync"
 
@@ -76,8 +76,9 @@ RunFrom(ops, st) ==
             CASE o.op \in {"call", "callx"} ->
                    IF Sync THEN [st EXCEPT !.p.lbl = "get.read", !.p.k = o.k, !.p.want = W("map", "r")]
                    ELSE RunFrom(ops, [st EXCEPT !.p.lbl = "a.get", !.p.k = o.k])
-              [] o.op \in {"inv_with", "clear", "aux"} ->
-                   [st EXCEPT !.p.lbl = o.op \o ".aux", !.p.want = W("aux", "r")]
+              [] o.op \in {"inv_with", "clear", "aux", "sreset"} ->
+                   \* o.naux registry read locks are taken one after the other before anything else
+                   [st EXCEPT !.p.lbl = o.op \o ".aux", !.p.want = W("aux", "r"), !.p.aux = o.naux]
   ELSE IF p.lbl = "a.get"
   THEN \* async lookup: DashMap only
        LET k == p.k IN
@@ -119,6 +120,7 @@ Granted(ops, st) ==
       cc == st.c
   IN
   CASE p.lbl = "start" -> [st |-> st, hold |-> {}, go |-> TRUE]
+    [] p.aux > 1 -> [st |-> [st EXCEPT !.p.aux = @ - 1], hold |-> {}, go |-> FALSE]
     \* ---------------- sync call
     [] p.lbl = "get.read" ->
          IF k \notin Dom(cc)
@@ -169,8 +171,10 @@ Granted(ops, st) ==
          LET c1 == IF k \in Dom(cc) THEN [cc EXCEPT !.order = Append(DelAll(@, k), k)] ELSE cc IN
          [st |-> Finish([st EXCEPT !.c = c1], FALSE, p.hitv), hold |-> {}, go |-> TRUE]
     [] p.lbl = "a.ins" ->
-         LET r == FirstOf(InsertPlain(cfg, cc, k, p.v, 1)) IN
-         [st |-> Finish([st EXCEPT !.c = r.c], TRUE, p.v), hold |-> {}, go |-> TRUE]
+         \* the whole async insert inside the queue lock; ties resolved as the scan does (first minimal)
+         LET c1 == AsyncDropOld(cfg, cc, k)
+             c2 == IF LimitExceeded(cfg, c1) THEN FirstEvict(cfg, c1) ELSE c1 IN
+         [st |-> Finish([st EXCEPT !.c = PushPut(c2, k, p.v, 1)], TRUE, p.v), hold |-> {}, go |-> TRUE]
     \* ---------------- invalidate_with(sel)
     [] p.lbl = "inv_with.aux" ->
          LET o == ops[p.i] IN
@@ -215,6 +219,9 @@ Granted(ops, st) ==
          [st |-> Finish([st EXCEPT !.c.order = <<>>], FALSE, None), hold |-> {}, go |-> TRUE]
     \* ---------------- statistics query: registry read lock only
     [] p.lbl = "aux.aux" -> [st |-> Finish(st, FALSE, None), hold |-> {}, go |-> TRUE]
+    \* stats_registry::reset: counters zeroed while the registry read lock is held
+    [] p.lbl = "sreset.aux" ->
+         [st |-> Finish([st EXCEPT !.c.hitsS = 0, !.c.missS = 0], FALSE, None), hold |-> {}, go |-> TRUE]
 
 -----------------------------------------------------------------------------
 Grantable(t, w) ==
